@@ -6,6 +6,7 @@ import (
 	"hash"
 	"io"
 	"io/fs"
+	"net/url"
 	"os"
 	"strings"
 	"time"
@@ -238,6 +239,13 @@ func vRename(oldpath, newpath string) error {
 	}
 	delete(vFS, oldpath)
 	vPut(newpath, n) // atomic: the destination is either the old or the new file
+	for name, pe := range vPending {
+		sp := vBodies[name]
+		if newpath == vWork+"/targets/"+url.PathEscape(sp.pkg[2:]+"/"+sp.name) {
+			vExec[name], vSaw[name], vLastOK[name] = pe.at, pe.saw, true
+			delete(vPending, name)
+		}
+	}
 	vTick("after-rename")
 	return nil
 }
@@ -431,6 +439,7 @@ func vCall(thread *starlark.Thread, fn starlark.Value, args starlark.Tuple, kwar
 		vAssert(false, "C13: a target body was called during a dry run")
 	}
 	if vFail[b.name] {
+		vLastOK[b.name] = false
 		return nil, vErrT("body failed: " + b.name)
 	}
 	spec := vBodies[b.name]
@@ -450,10 +459,10 @@ func vCall(thread *starlark.Thread, fn starlark.Value, args starlark.Tuple, kwar
 		vTick("body-write-" + b.name)
 		vWriteFile(vRoot+"/"+g, b.name+in)
 	}
+	// the execution counts as a successful execution of the target once dawn has recorded it (the
+	// record's rename): a process that dies in between never reported it
 	vClock++
-	vExec[b.name] = vClock
-	vSaw[b.name] = vInputsOf(b.name)
-	vLastOK[b.name] = true
+	vPending[b.name] = vPendingExec{vClock, vInputsOf(b.name)}
 	vTick("body-end-" + b.name)
 	return starlark.None, nil
 }
@@ -504,6 +513,7 @@ func (e *vEngine) EvaluateTargets(labels ...string) []runner.Result {
 			e.stack = append(e.stack, l)
 			vEvaluated = append(vEvaluated, l)
 			err = t.Evaluate(e)
+			vCompleted = append(vCompleted, l) // the evaluation ran to its end (it did not die half-way)
 			e.stack = e.stack[:len(e.stack)-1]
 		}
 		r := runner.Result{Target: t, Error: err}
@@ -553,10 +563,18 @@ var (
 	vLastOK    = map[string]bool{}   // function name -> its last attempt succeeded
 	vRan       []string              // bodies called in the current build
 	vEvaluated []string              // labels evaluated in the current build
+	vCompleted []string              // labels whose evaluation ran to completion in the current build
 	vDry       bool
 	vOps       int
 	vCrashAt   = -1
 )
+
+type vPendingExec struct {
+	at  int
+	saw string
+}
+
+var vPending = map[string]vPendingExec{}
 
 // vTick marks a point between two persistent effects; the process dies here when the crash index says so.
 func vTick(what string) {
@@ -649,7 +667,8 @@ func vLoadProject() (*Project, error) {
 
 // vBuild: load + run, as the CLI does. Returns (load error, build error, crashed).
 func vBuild(target string, opts *RunOptions) (loadErr, buildErr error, crashed bool) {
-	vRan, vEvaluated, vEvents = nil, nil, nil
+	vRan, vEvaluated, vCompleted, vEvents = nil, nil, nil, nil
+	vPending = map[string]vPendingExec{}
 	vDry = opts != nil && opts.DryRun
 	crashed = vCatchCrash(func() {
 		proj, err := vLoadProject()
